@@ -37,13 +37,13 @@ def signature(rule: str, detail: Any, desc: dict) -> str:
 
 
 def run(ctx: Ctx) -> Outcome:
-    n = 10 if ctx.quick else 15
+    n = 8 if ctx.quick else 15
     counter = [0]
 
     def jobs_for(d: dict) -> list[dict]:
         jobs = [{"desc": d, "mode": "negative", "modes": ["negative"], "n": n, "seed": ctx.seed}]
         counter[0] += 1
-        if counter[0] % (2 if ctx.quick else 3) == 0:      # the second mode list for every 2nd / 3rd descriptor (negative draws cost ~80 ms each)
+        if counter[0] % 3 == 0:      # the second mode list for every 3rd descriptor (negative draws cost ~80 ms each)
             jobs.append({"desc": d, "mode": "negative", "modes": ["positive", "negative"], "n": n, "seed": ctx.seed})
         return jobs
 
